@@ -1635,7 +1635,7 @@ fn cancel_matrix(rng: &mut Rng, out: &mut Vec<Case>) {
 }
 
 /// Durability through the ring: ring writes, ring (or shim) fsync, more writes, crash somewhere, look.
-fn durability(rng: &mut Rng, out: &mut Vec<Case>, n: usize) {
+fn durability(rng: &mut Rng, out: &mut Vec<Case>, n: usize, mode: &'static str) {
     for _ in 0..n {
         let cfg = gen_cfg(rng, 1);
         let mut ops = vec![Op::NewRing(*rng.pick(&[2u32, 4, 8])), Op::CqNew(0)];
@@ -1691,7 +1691,7 @@ fn durability(rng: &mut Rng, out: &mut Vec<Case>, n: usize) {
         ops.push(Op::FOpen(0));
         ops.push(Op::FRead { fd: 0, off: 0, len: 16 });
         closing(&mut ops, 1);
-        out.push(Case { family: "durability", mode: "standalone", cfg, ops });
+        out.push(Case { family: if mode == "sim" { "durabilitysim" } else { "durability" }, mode, cfg, ops });
     }
 }
 
@@ -1963,7 +1963,9 @@ pub fn main(args: &Args, out: &mut dyn Write) {
         big_batches(&mut rng, &mut cases, 12 * scale);
         exhaustive(&mut cases, if args.tier == "thorough" { 6 } else { 5 });
         crash_points(&mut rng, &mut cases, 30 * scale);
-        durability(&mut rng, &mut cases, 120 * scale);
+        durability(&mut rng, &mut cases, 120 * scale, "standalone");
+        // the same through Sim::crash + Sim::bounce: an fsync in flight / matured but unreaped / reaped at the crash
+        durability(&mut rng, &mut cases, 40 * scale, "sim");
         if let Some(n) = args.cases {
             cases.truncate(n);
         }
